@@ -1,8 +1,9 @@
 (* Properties_C03.v — C03: deserializers are memory-safe, input-bounded and source-independent on any
    bytes (JSON reader, then the MessagePack reader). *)
-From Coq Require Import NArith ZArith List Bool.
+From Coq Require Import NArith ZArith List Bool Lia.
 From AJ Require Import Model.Base Model.Value Model.JsonParse.
 From AJ Require Import Model.MsgPack.
+From AJ Require Gen.Config.
 From AJ Require Import Spec.ParseSpec Proofs.Lex Proofs.ParseSafe Proofs.MsgPackComplete.
 Local Open Scope N_scope.
 
@@ -53,6 +54,25 @@ Theorem C03_msgpack_reads_a_prefix_any_state : forall cf L f dst r e v r', mp_pa
   exists consumed, m_rest r = consumed ++ m_rest r'.
 Proof. exact mp_reads_bounded. Qed.
 Print Assumptions C03_msgpack_reads_a_prefix_any_state.
+
+(* tie T: the bound of the number-token copy loop read from the source text is the model's 63, and the token plus its
+   terminator fits the buffer declared in the source (sizeof buffer_) *)
+Theorem C03_number_token_fits_its_buffer :
+  Gen.Config.gen_number_token_limit = 63%Z /\
+  (Gen.Config.gen_number_token_limit + 1 <= Gen.Config.gen_number_buffer_size)%Z /\
+  (forall cf s, (length (fst (scan_number cf 63 [] s)) <= 63)%nat).
+Proof.
+  split; [reflexivity|]. split; [vm_compute; discriminate|].
+  intros cf s.
+  assert (H : forall n acc s0, (length (fst (scan_number cf n acc s0)) <= n + length acc)%nat).
+  { induction n as [|n IH]; intros acc s0; cbn [scan_number].
+    - cbn [fst]. apply Nat.le_refl.
+    - destruct (current s0) as [c s1]. destruct (can_be_in_number cf c).
+      + pose proof (IH (acc ++ [c]) (move s1)) as H1. rewrite app_length in H1. cbn [length] in H1. lia.
+      + cbn [fst]. lia. }
+  specialize (H 63%nat [] s). cbn [length] in H. lia.
+Qed.
+Print Assumptions C03_number_token_fits_its_buffer.
 
 Example C03_example :   (* truncated input ending inside a \u escape: classified, no fault, reads = length *)
   let o := json_run default_cfg None 10 [91; 34; 92; 117; 48; 48] in
